@@ -142,6 +142,7 @@ def run_trading(rnd, S, cfgk, intensity=1.0, script=None, analyser=False, ids=No
                                              "daily_pnl": {t: float(a.daily_pnl) for t, a in context.portfolio.accounts.items()} if name == "POST_SETTLEMENT" else {},
                                              "rows": rows_snap(context) if name == "POST_SETTLEMENT" else None,
                                              "open": [o.order_id for o in env.broker.get_open_orders()]}))
+                    tr.rec.attach(tr.events[-1][1]["accounts"], tr.events[-1][1]["pf"], tr.events[-1][1]["open"])
                 return h
             subscribe_event(getattr(EVENT, name), mk(name))
         for name in order_events:
@@ -569,6 +570,7 @@ def run_trading(rnd, S, cfgk, intensity=1.0, script=None, analyser=False, ids=No
         tr.stats["_phase"] = phase
         if reseed_key is not None:      # decisions are a function of (key, clock, phase) only: the strategy has no hidden state (resumable)
             srnd.seed("%s|%s|%s" % (reseed_key, env.calendar_dt, phase))
+        tr.rec.attach(accounts_snap(context), pf_snap(context), [o.order_id for o in env.broker.get_open_orders()])      # the state the callback starts from
         n_ops = srnd.choice([0, 0, 1, 1, 2, 3, 5]) if intensity >= 1 else srnd.choice([0, 0, 0, 1, 2])
         forced_ops = directed_ops(context, phase)
         for it in range(len(forced_ops) + n_ops):
@@ -819,6 +821,7 @@ def run_trading(rnd, S, cfgk, intensity=1.0, script=None, analyser=False, ids=No
             tr.calls.append(call)
             tr.events.append(("CALL", call))
             tr.stats["calls"] += 1
+            tr.rec.attach(call["after"], call["pf_after"], call["open_after"])
 
     def pos_roundtrip(context):
         env = Environment.get_instance()
